@@ -9,7 +9,7 @@ import DmrVerif.Lemmas.TranslMbxml
 `Model/Py.lean`).  For all byte strings and all natural read positions the translated `read_uintvar` equals the model's
 `readU` (value, new index, `IndexError` when the octets run out), the `while True` loop never exhausts its fuel, and the
 three slice readers have closed forms; the round-trip theorem of C14 is restated with the translated reader.
-`read_sintvar` is translated and differentially validated (`t.mb.rsint`), its equality with `readS` is not proved here.
+`read_sintvar` equals the model's `readS` (Python's `sign` ∈ {−1, 1} is `signOf` of the model's flag).
 Negative read positions (Python counts them from the end) are outside the model's domain (`idx : Nat`); the translated
 definitions cover them and the differential run exercises them.
 -/
@@ -21,6 +21,23 @@ open Dmr Dmr.Py Dmr.Mbxml Dmr.Transl.Mbxml
 theorem read_uintvar_eq (data : Bytes) (idx : Nat) :
     read_uintvar data (idx : Int) = ofR (fun p : Nat × Nat => ((p.1 : Int), (p.2 : Int))) (readU data idx) :=
   Transl.Mbxml.read_uintvar_eq data idx
+
+/-- `read_sintvar(data, idx)` = the model's `readS data idx` (value with sign, new index, sign as −1 / 1) -/
+theorem read_sintvar_eq (data : Bytes) (idx : Nat) :
+    read_sintvar data (idx : Int) =
+      ofR (fun p : Int × Nat × Bool => (p.1, ((p.2.1 : Nat) : Int), signOf p.2.2)) (readS data idx) :=
+  Transl.Mbxml.read_sintvar_eq data idx
+
+/-- `C14.read_write_sintvar` with the translated reader: what the writer produces for `|v| ≤ 2^31 − 1`, at any position of
+any buffer, is read back by the translated source as `v` with its sign, ending exactly behind it -/
+theorem transl_read_write_sintvar (v : Int) (hv : v.natAbs ≤ 2 ^ 31 - 1) (pre rest : Bytes) :
+    ∃ bs, writeS v = .ok bs ∧
+      read_sintvar (pre ++ bs ++ rest) (pre.length : Int) =
+        .ok (v, ((pre.length + bs.length : Nat) : Int), if v < 0 then -1 else 1) := by
+  obtain ⟨bs, hw, hr⟩ := C14.read_write_sintvar v hv pre rest
+  refine ⟨bs, hw, ?_⟩
+  rw [read_sintvar_eq, hr]
+  by_cases h : v < 0 <;> simp [ofR, signOf, h]
 
 /-- `read_uint8(data, idx)` never raises; past the end it reads 0 -/
 theorem read_uint8_eq (data : Bytes) (idx : Nat) :
